@@ -68,7 +68,7 @@ theorem goodP_settok {ms0 : List Macro} {st : St} (g : GoodP ms0 st) (t : Tok) :
   ⟨g.stat, g.inv, g.wf, g.flatOk, g.live, g.prag, g.ppnl⟩
 
 /-- the token `rawnext` took from the context stack: handled by `expand`, the potential goes down -/
-theorem nextTot_ctx (ms0 : List Macro) (hTb : TblOK ms0) (st s1 : St) (k : Nat) (hr : exec k .rawnext st = .ok s1)
+theorem nextTot_ctx (ms0 : List Macro) (hTb : TblOKS ms0) (st s1 : St) (k : Nat) (hr : exec k .rawnext st = .ok s1)
     (g1 : GoodP ms0 s1)
     (c1 : flatG (annHp ms0) st.macros st.ctx = annHp ms0 (liveNames s1.ctx) s1.rt :: flatG (annHp ms0) s1.macros s1.ctx)
     (c2 : FlatP ms0 s1.rt) (c3 : s1.raw = st.raw)
@@ -96,7 +96,7 @@ theorem nextTot_ctx (ms0 : List Macro) (hTb : TblOK ms0) (st s1 : St) (k : Nat) 
     exact IH _ (goodP_settok gx _) (by show sx.raw = _; rw [hrawx, c3]) (by show potW ms0 sx < _; exact hp)
 
 /-- **`next()` completes, and so does the run after it**, on every good state over a text of the class -/
-theorem nextTot_all (ms0 : List Macro) (hTb : TblOK ms0) {raw : List Tok} (ht : TextP ms0 raw) :
+theorem nextTot_all (ms0 : List Macro) (hTb : TblOKS ms0) {raw : List Tok} (ht : TextP ms0 raw) :
     ∀ (p : Nat) (st : St), GoodP ms0 st → st.raw = raw → potW ms0 st ≤ p → NextTot st := by
   induction ht with
   | nil =>
@@ -191,7 +191,7 @@ theorem nextTot_all (ms0 : List Macro) (hTb : TblOK ms0) {raw : List Tok} (ht : 
       | eof c1 c2 c3 c4 c5 => rw [hraw] at c2; cases c2
 
 /-- **Termination**: on a good state over a text of the class the run completes -/
-theorem run_totalP (ms0 : List Macro) (hTb : TblOK ms0) (st : St) (g : GoodP ms0 st) (ht : TextP ms0 st.raw) :
+theorem run_totalP (ms0 : List Macro) (hTb : TblOKS ms0) (st : St) (g : GoodP ms0 st) (ht : TextP ms0 st.raw) :
     ∃ N, ∀ n, N ≤ n → (run n st).2 = none := by
   obtain ⟨N, hN⟩ := runTot_of_nextTot (nextTot_all ms0 hTb ht _ st g rfl (Nat.le_refl _))
   refine ⟨N, fun n hn => ?_⟩
